@@ -223,9 +223,25 @@ class StartStageHandler(
                     }
                     fresh_stage.context["beforeStagePlanningFailed"] = True
 
+                    # Planning failed, nothing was started: the stage has failed.
+                    # CompleteStage only propagates a stage that already carries
+                    # its final status; left NOT_STARTED / RUNNING here it treated
+                    # the message as stale and the workflow hung with an empty queue.
+                    failed_now = not fresh_stage.status.is_complete
+                    if failed_now:
+                        self.set_stage_status(fresh_stage, WorkflowStatus.TERMINAL)
+                        fresh_stage.end_time = self.current_time_millis()
+
                     # Atomic: store stage + push CompleteStage together
                     with self.repository.transaction(self.queue) as txn:
                         txn.store_stage(fresh_stage)
+                        if failed_now and self.event_recorder:
+                            self.set_event_context(message.execution_id)
+                            self.event_recorder.record_stage_failed(
+                                fresh_stage,
+                                error=error_str,
+                                source_handler="StartStageHandler",
+                            )
                         txn.push_message(
                             CompleteStage(
                                 execution_type=message.execution_type,
